@@ -32,7 +32,18 @@ pub enum Held {
 
 pub struct BoxClient {
     pub held: Vec<Held>,
+    /// leaked over-aligned boxed values: (address, length, pattern seed)
+    pub aligned: Vec<(usize, usize, u32)>,
 }
+
+#[repr(C, align(32))]
+struct Al32([u8; 40]);
+#[repr(C, align(64))]
+struct Al64([u8; 64]);
+#[repr(C, align(256))]
+struct Al256([u8; 300]);
+#[repr(C, align(4096))]
+struct Al4096([u8; 4096]);
 
 /// Serialize (feature `serde`) of a box: the same JSON as std's box
 fn json<T: serde::Serialize + ?Sized>(x: &T) -> String {
@@ -59,7 +70,7 @@ fn ok2(b: Side, s: Side) -> OpOutcome {
 
 impl BoxClient {
     pub fn new() -> Self {
-        BoxClient { held: Vec::new() }
+        BoxClient { held: Vec::new(), aligned: Vec::new() }
     }
 
     pub fn drop_all(&mut self) {
@@ -93,6 +104,11 @@ impl BoxClient {
 
     /// observable value of every held box, both worlds
     pub fn compare(&self) -> Result<(), String> {
+        for &(a, n, seed) in &self.aligned {
+            if let Some(k) = (0..n).find(|&k| unsafe { *(a as *const u8).add(k) } != crate::common::pat(seed, k)) {
+                return Err(format!("byte {} of an over-aligned boxed value of {} bytes changed", k, n));
+            }
+        }
         for (i, h) in self.held.iter().enumerate() {
             let (b, s): (String, String) = match h {
                 Held::U64(b, s) => (format!("{}", **b), format!("{}", **s)),
@@ -529,6 +545,37 @@ impl BoxClient {
                         Ret::Num((*d)(7) as u64 + (d)(1) as u64)
                     }),
                 )
+            }
+            BOp::OverAligned { log2, seed } => {
+                let seed = *seed;
+                macro_rules! boxed {
+                    ($T:ident, $n:expr) => {{
+                        let mut v = $T([0u8; $n]);
+                        for k in 0..$n {
+                            v.0[k] = crate::common::pat(seed, k);
+                        }
+                        b_call(|| BBox::leak(BBox::new_in(v, bump)) as *mut $T as usize).map(|a| (a, $n, std::mem::align_of::<$T>()))
+                    }};
+                }
+                let r = match log2 {
+                    5 => boxed!(Al32, 40),
+                    6 => boxed!(Al64, 64),
+                    8 => boxed!(Al256, 300),
+                    _ => boxed!(Al4096, 4096),
+                };
+                let mut extra = None;
+                if let Ok((a, n, al)) = r {
+                    let mut held = Vec::new();
+                    crate::simalloc::held(0, &mut held);
+                    if a % al != 0 {
+                        extra = Some(("C17", "boxed-value-misaligned", format!("align {} address % align = {}", al, a % al)));
+                    } else if !held.iter().any(|e| a >= e.user && a + n <= e.user + e.size) {
+                        extra = Some(("C17", "boxed-value-outside-arena-memory", format!("{} bytes, align {}", n, al)));
+                    } else {
+                        self.aligned.push((a, n, seed));
+                    }
+                }
+                OpOutcome { b: r.map(|_| Ret::Unit), s: Ok(Ret::Unit), extra }
             }
             BOp::HasherBox(n) => ok2(
                 b_call(|| {
